@@ -1,6 +1,7 @@
 import Zog.Props.FactsOK
 import Zog.Mono
 import Zog.EventPaths
+import Zog.CtxVals
 
 /-!
 # C12 — user callbacks run at the documented times with the node's own value
@@ -146,5 +147,38 @@ theorem callbacks_see_their_own_path (env : Env) (m : Mode) (s : Schema) (tag : 
   rw [h1] at he
   obtain ⟨suffix, hs⟩ := h2 e (by simpa using he)
   exact ⟨suffix, by simpa using hs⟩
+
+/-! ## context values -/
+
+/-- regenerated fact (go/ast, `NewExecCtx`): the constructor that takes an `ExecCtx` from the pool
+    assigns its value map -/
+theorem exec_ctx_resets_values :
+    (((Gen.ctorAssigns.find? (fun p => p.1 == "NewExecCtx")).map (·.2)).getD []).contains "m" = true := by decide
+
+/-- **`ctx.Get` returns exactly the values passed to THIS call through `WithCtxValue`**: the last value
+    given for the key, nil for a key this call did not pass — whatever ANY sequence of earlier
+    executions (with any context values of their own) left in the pooled context object. -/
+theorem ctx_get_exactly_passed (dirt : CtxVals.M) (earlier : List (List (String × String)))
+    (opts : List (String × String)) (k : String) :
+    CtxVals.get (CtxVals.exec true (CtxVals.history true dirt earlier) opts) k = CtxVals.passed opts k :=
+  CtxVals.get_after_history dirt earlier opts k
+
+/-- a key this call did not pass reads nil -/
+theorem ctx_get_absent_key (dirt : CtxVals.M) (earlier : List (List (String × String)))
+    (opts : List (String × String)) (k : String) (h : ∀ kv ∈ opts, kv.1 ≠ k) :
+    CtxVals.get (CtxVals.exec true (CtxVals.history true dirt earlier) opts) k = none := by
+  rw [ctx_get_exactly_passed]
+  unfold CtxVals.passed
+  have : List.find? (fun kv => kv.1 == k) opts.reverse = none := by
+    rw [List.find?_eq_none]
+    intro x hx
+    have := h x (List.mem_reverse.mp hx)
+    simpa using this
+  rw [this]; rfl
+
+/-- the reset is what the claim rests on: without it a value of an earlier execution shows through -/
+theorem ctx_without_reset_leaks :
+    CtxVals.get (CtxVals.exec false (CtxVals.history false none [[("k", "old")]]) []) "k" = some "old" :=
+  CtxVals.no_reset_leaks
 
 end Zog.Props.C12
